@@ -51,6 +51,7 @@ struct TInfo {
 
 struct State {
     threads: HashMap<ThreadId, TInfo>,
+    next_tid: usize,
     granted: Option<ThreadId>,
     in_op: bool,
     seq: u64,
@@ -99,6 +100,7 @@ impl Sched {
         let s = Arc::new(Sched {
             st: Mutex::new(State {
                 threads: HashMap::new(),
+                next_tid: 0,
                 granted: None,
                 in_op: false,
                 seq: 0,
@@ -124,7 +126,10 @@ impl Sched {
     }
 
     fn info<'a>(st: &'a mut State, id: ThreadId) -> &'a mut TInfo {
-        let n = st.threads.len();
+        if !st.threads.contains_key(&id) {
+            st.next_tid += 1;
+        }
+        let n = st.next_tid - 1;
         st.threads.entry(id).or_insert_with(|| TInfo {
             tid: n,
             role: role_of_current(),
@@ -246,6 +251,40 @@ impl Sched {
         st.threads.remove(&id);
         st.last_change = Instant::now();
         self.cv.notify_all();
+    }
+
+    /// Blocks (as a "blocked" thread) until no instrumented operation has happened for `quiet` and no thread is
+    /// parked or mid-operation; returns the number of events logged so far.
+    pub fn wait_quiet(&self, quiet: Duration) -> u64 {
+        self.thread_blocked(true);
+        let deadline = Instant::now() + Duration::from_secs(10);
+        loop {
+            {
+                let st = self.st.lock().unwrap();
+                let parked = st.threads.values().any(|t| t.status == Status::Parked);
+                if !parked && !st.in_op && st.granted.is_none() && Instant::now().duration_since(st.last_change) > quiet {
+                    let n = st.seq;
+                    drop(st);
+                    self.thread_blocked(false);
+                    return n;
+                }
+            }
+            if Instant::now() > deadline {
+                self.thread_blocked(false);
+                return 0;
+            }
+            std::thread::sleep(Duration::from_micros(300));
+        }
+    }
+
+    /// number of events with the given site logged after sequence number `after`
+    pub fn count_since(&self, site: &str, after: u64) -> usize {
+        let st = self.st.lock().unwrap();
+        st.log.iter().filter(|l| l.seq > after && l.ev.site == site).count()
+    }
+
+    pub fn seq(&self) -> u64 {
+        self.st.lock().unwrap().seq
     }
 
     pub fn finish(&self) -> (Vec<Logged>, Vec<(usize, String, usize)>, Option<String>) {
